@@ -31,6 +31,8 @@ type obs struct {
 	Panic    string `json:",omitempty"`
 	Hash     uint32
 	Cfg      *cmd.VerifC10Cfg `json:"-"`
+	// what the real assemble() stores in result.js (first load only)
+	Asm *cmd.VerifC10Assembled `json:"-"`
 }
 
 func parse(files map[string]string, main string, defines, incPath []string) obs {
@@ -408,6 +410,12 @@ func dropRepeatComment(text string) string {
 	return strings.Join(out, "\n")
 }
 
+func fnv32(s string) uint32 {
+	h := fnv.New32()
+	h.Write([]byte(s))
+	return h.Sum32()
+}
+
 func firstDiff(a, b string) string {
 	la, lb := strings.Split(a, "\n"), strings.Split(b, "\n")
 	for i := 0; i < len(la) || i < len(lb); i++ {
@@ -468,6 +476,26 @@ func check(c *Case) {
 	h.Write([]byte(c.A.Printed))
 	if h.Sum32() != c.A.Hash {
 		c.Fail, c.Sig = "hash", "hash-not-of-printed-text"
+		return
+	}
+	// result.js, as the real assemble() fills it: Config is the printed
+	// configuration, ConfigHash its FNV-32 (so two configurations that print
+	// differently get different ids, up to hash collisions), ConfigHTML the
+	// annotated print, Steps the printSteps text
+	if a := c.A.Asm; a != nil {
+		switch {
+		case a.Err != "" || a.Panic != "":
+			c.Fail, c.Sig, c.Why = "result", "assemble-fails", a.Err+a.Panic
+		case normWatches(a.Config) != normWatches(c.A.Printed):
+			c.Fail, c.Sig, c.Why = "result", "result-config-is-not-the-printed-configuration", firstDiff(normWatches(a.Config), normWatches(c.A.Printed))
+		case a.ConfigHash != fnv32(a.Config):
+			c.Fail, c.Sig = "result", "result-config-hash-is-not-the-hash-of-config"
+			c.Why = fmt.Sprintf("ConfigHash %d, FNV-32 of Config %d", a.ConfigHash, fnv32(a.Config))
+		case normWatches(stripAnnot(a.ConfigHTML)) != normWatches(a.Config):
+			c.Fail, c.Sig, c.Why = "result", "result-config-html-differs", firstDiff(stripAnnot(a.ConfigHTML), a.Config)
+		case a.Steps != c.A.Steps:
+			c.Fail, c.Sig, c.Why = "result", "result-steps-differ", firstDiff(a.Steps, c.A.Steps)
+		}
 	}
 }
 
@@ -500,6 +528,24 @@ func buildCase(id int, r *rand.Rand, tier string) *Case {
 	default:
 		if r.Float64() < 0.6 {
 			ps = parametrise(r, raw, risk)
+		}
+		if r.Float64() < 0.15 {
+			// a parameter defined EMPTY with -D, with a non-empty in-file
+			// default placed before its use: -D must still win.  Appended to a
+			// substituted field, the empty value leaves the field as it was.
+			var fields []*string
+			for i := range raw {
+				for _, f := range substFields(&raw[i]) {
+					if !strings.Contains(*f, "~") && !strings.Contains(*f, "\n") && *f != "" {
+						fields = append(fields, f)
+					}
+				}
+			}
+			if len(fields) > 0 {
+				f := fields[r.Intn(len(fields))]
+				*f = *f + "~e_~"
+				ps = append(ps, param{Name: "e_", Value: "", Define: true, HasDefault: true, Default: "zz not empty"})
+			}
 		}
 	}
 	raw = insertParams(r, raw, ps)
@@ -538,6 +584,10 @@ func buildCase(id int, r *rand.Rand, tier string) *Case {
 
 func observe(c *Case) {
 	c.A = parse(c.Files, c.Main, c.Defines, c.IncPath)
+	if c.A.Accepted {
+		asm := cmd.VerifC10Assemble(c.Files, c.Main, c.Defines, c.IncPath)
+		c.A.Asm = &asm
+	}
 	c.B = parseText(c.Plain)
 	if c.A.Accepted {
 		c.R2 = parseText(c.A.Printed)
@@ -565,9 +615,14 @@ func main() {
 	// the reader runs `git diff <file>` on every file it opens (for the
 	// report); irrelevant here and slow: make the lookup fail at once
 	os.Setenv("PATH", "")
+	// the real assemble() needs the log package pointed at a directory
+	closeScope := cmd.VerifLogScope()
 	if *replay != "" {
-		os.Exit(doReplay(*replay, *out))
+		code := doReplay(*replay, *out)
+		closeScope()
+		os.Exit(code)
 	}
+	defer closeScope()
 	count := *n
 	if count == 0 {
 		count = 1500
